@@ -103,33 +103,43 @@ func runC07(rc *RC) {
 		}
 		var sb strings.Builder
 		fmt.Fprintf(&sb, "<%s", in.kind)
+		// the attributes, written in a drawn order
+		var attrs []string
 		if in.kind == "ctl" {
-			sb.WriteString(` xmlns="urn:verif:nonza"`) // a foreign-namespace top-level element
+			attrs = append(attrs, ` xmlns="urn:verif:nonza"`) // a foreign-namespace top-level element
 		} else if opts.WS {
-			sb.WriteString(` xmlns="jabber:client"`)
+			attrs = append(attrs, ` xmlns="jabber:client"`)
 		}
 		if in.typ != "" {
-			fmt.Fprintf(&sb, ` type="%s"`, in.typ)
+			attrs = append(attrs, fmt.Sprintf(` type="%s"`, in.typ))
 		}
 		if in.id != "" {
-			fmt.Fprintf(&sb, ` id="%s"`, escText(in.id))
+			attrs = append(attrs, fmt.Sprintf(` id="%s"`, escText(in.id)))
 		}
 		if in.from != "" {
-			fmt.Fprintf(&sb, ` from="%s"`, in.from)
+			attrs = append(attrs, fmt.Sprintf(` from="%s"`, in.from))
 		}
 		if ch.Chance("workload", 1, 3) {
-			sb.WriteString(` to="me@example.net/sut"`)
+			attrs = append(attrs, ` to="me@example.net/sut"`)
 		}
 		if ch.Chance("workload", 1, 5) {
-			// extension attributes in a foreign namespace named like the stanza's own attributes: they mean nothing
+			// extension attributes in a foreign namespace named like the stanza's own attributes: they mean nothing,
+			// wherever they stand (also xml:id, and a namespace prefix that happens to be called id)
 			in.decoy = true
-			sb.WriteString(` xmlns:x="urn:verif:x"`)
-			for _, d := range [][2]string{{"from", "mallory@example.org/m"}, {"type", []string{"get", "set", "result"}[ch.Int("workload", 3)]}, {"id", "decoy-id"}, {"to", "nobody@example.org"}} {
+			attrs = append(attrs, ` xmlns:x="urn:verif:x"`)
+			for _, d := range [][2]string{{"x:from", "mallory@example.org/m"}, {"x:type", []string{"get", "set", "result"}[ch.Int("workload", 3)]}, {"x:id", "decoy-id"}, {"x:to", "nobody@example.org"}, {"xml:id", "decoy-xml-id"}, {"xmlns:id", "urn:verif:decoy"}, {"xmlns:type", "result"}} {
 				if ch.Chance("workload", 1, 2) {
-					fmt.Fprintf(&sb, ` x:%s="%s"`, d[0], d[1])
+					attrs = append(attrs, fmt.Sprintf(` %s="%s"`, d[0], d[1]))
 				}
 			}
 		}
+		if ch.Chance("workload", 1, 2) {
+			for i := len(attrs) - 1; i > 0; i-- {
+				k := ch.Int("workload", i+1)
+				attrs[i], attrs[k] = attrs[k], attrs[i]
+			}
+		}
+		sb.WriteString(strings.Join(attrs, ""))
 		if in.kind == "iq" && ch.Chance("workload", 1, 10) {
 			// an IQ without any payload (not valid for get/set, but it is what arrived and it has an id)
 			in.empty = true
